@@ -79,6 +79,7 @@ struct Stats {
     cancelled_searches: u64,
     concurrent_rows: u64,
     full_index_rows: u64,
+    huge_rows: u64,
     dims: Vec<usize>,
     problems: Vec<String>,
 }
@@ -120,18 +121,31 @@ fn check_results(st: &mut Stats, what: &str, metric: u8, q: &[f32], res: &[kyrod
 
 fn run_row(seed: u64, row: u64, big: bool, st: &mut Stats) {
     let mut rng = Rng(seed ^ row.wrapping_mul(0xA24BAED4963EE407));
-    let max_dim = 130;
+    // one native row in ten is a large graph (several thousand nodes, small dimension): size-dependent code paths
+    // (scratch buffers and visited sets sized from the graph, upper layers with real populations) only exist there,
+    // and the threads of phase D meet that graph with fresh thread-local scratch
+    let huge = big && rng.below(10) == 0;
+    let max_dim = if huge { 24 } else { 130 };
     let dim = gen_dim(&mut rng, max_dim);
     let metric = rng.below(3) as u8;
-    let m = rng.pick(&[4usize, 5, 8, 16, 33, 64]);
-    let efc = rng.pick(&[1usize, 4, 16, 50]);
-    let n: usize = if big { 20 + rng.below(400) as usize } else { 2 + rng.below(if dim > 64 { 6 } else { 10 }) as usize };
+    let m = if huge { rng.pick(&[4usize, 8, 16]) } else { rng.pick(&[4usize, 5, 8, 16, 33, 64]) };
+    let efc = if huge { rng.pick(&[4usize, 16]) } else { rng.pick(&[1usize, 4, 16, 50]) };
+    let n: usize = if huge {
+        rng.pick(&[4090usize, 4096, 4097, 4200, 5000, 8200])
+    } else if big {
+        20 + rng.below(400) as usize
+    } else {
+        2 + rng.below(if dim > 64 { 6 } else { 10 }) as usize
+    };
     let cap = match rng.below(4) {
         0 => n.saturating_sub(1).max(1), // the index fills up before the sequence ends
         1 => n,
         2 => n + 1,
-        _ => if big { 4096 } else { n + 7 },
+        _ => if huge { n + 100 } else if big { 4096 } else { n + 7 },
     };
+    if huge {
+        st.huge_rows += 1;
+    }
     st.rows += 1;
     st.dims.push(dim);
     let Ok(mut idx) = HnswVectorIndex::new_with_params(dim, cap, metric_of(metric), m, efc, false) else {
@@ -241,7 +255,8 @@ fn run_row(seed: u64, row: u64, big: bool, st: &mut Stats) {
         let steps = Arc::new(AtomicUsize::new(0));
         let flip_at = rng.below(6) as usize;
         let queries: Vec<Vec<f32>> = (0..3).map(|s| gen_vec(&mut rng, dim, metric, s + 2000)).collect();
-        let extra: Vec<Vec<f32>> = (0..2).map(|s| gen_vec(&mut rng, dim, metric, s + 3000)).collect();
+        // the writer thread inserts enough documents in a large graph for some of them to land on an upper layer
+        let extra: Vec<Vec<f32>> = (0..if huge { 60 } else { 2 }).map(|s| gen_vec(&mut rng, dim, metric, s + 3000)).collect();
         let mut handles = Vec::new();
         for t in 0..2usize {
             let (sh, ca, stp, qs) = (Arc::clone(&shared), Arc::clone(&cancel), Arc::clone(&steps), queries.clone());
@@ -302,7 +317,7 @@ fn main() {
     let start = get("--start", 0);
     let count = get("--count", 1);
     let big = args.iter().any(|a| a == "--big");
-    let mut st = Stats { rows: 0, inserts: 0, searches: 0, cancelled_searches: 0, concurrent_rows: 0, full_index_rows: 0, dims: vec![], problems: vec![] };
+    let mut st = Stats { rows: 0, inserts: 0, searches: 0, cancelled_searches: 0, concurrent_rows: 0, full_index_rows: 0, huge_rows: 0, dims: vec![], problems: vec![] };
     #[cfg(target_arch = "x86_64")]
     let kernel = if std::is_x86_feature_detected!("avx512f") && std::is_x86_feature_detected!("fma") {
         "avx512"
@@ -326,8 +341,8 @@ fn main() {
     }
     let tail = st.dims.iter().map(|d| d.to_string()).collect::<Vec<_>>().join(",");
     println!(
-        "VMEM-SUMMARY rows={} inserts={} searches={} cancelled={} concurrent_rows={} full_index_rows={} problems={} dims={}",
-        st.rows, st.inserts, st.searches, st.cancelled_searches, st.concurrent_rows, st.full_index_rows, st.problems.len(), tail
+        "VMEM-SUMMARY rows={} inserts={} searches={} cancelled={} concurrent_rows={} full_index_rows={} huge_rows={} problems={} dims={}",
+        st.rows, st.inserts, st.searches, st.cancelled_searches, st.concurrent_rows, st.full_index_rows, st.huge_rows, st.problems.len(), tail
     );
     if !st.problems.is_empty() {
         std::process::exit(3);
